@@ -158,7 +158,8 @@ pub mod presolve {
 /// C11: the crate-private block count / fill utilities of `algebra/csc/utils.rs`
 /// (thin call-through wrappers) and the KKT assembly hooks.
 pub mod c11 {
-    use crate::algebra::{CscMatrix, MatrixShape, MatrixTriangle};
+    use crate::algebra::CscMatrix;
+    pub use crate::algebra::{MatrixShape, MatrixTriangle};
     pub use crate::solver::core::kktsolvers::direct::verif_hooks_kkt::*;
 
     pub fn colcount_dense_triangle(K: &mut CscMatrix<f64>, initcol: usize, blockcols: usize, shape: MatrixTriangle) {
